@@ -613,3 +613,53 @@ Proof.
     now rewrite G.
   - intros k v now ts. reflexivity.
 Qed.
+
+(* ---------------------------------------------------------------- idle / expiry eviction (C10) -- *)
+
+(* a background pass never removes a copy of a key whose primary copy is neither expired nor idle *)
+Theorem evict_keeps E m now d k p : forall sample s,
+  lookup (ploc E d k) s = Some p -> expired (ettl p) now = false -> idle E d p now = false ->
+  forall l, holder E d k l = true -> lookup l (evict_pass E m sample now s) = lookup l s.
+Proof.
+  unfold evict_pass. induction sample as [|[d' k'] sample IH]; cbn; intros s Hp Hx Hi l Hl; [reflexivity|].
+  destruct (Nat.eqb (owner E d' k') m); [|now apply IH].
+  destruct (lookup (ploc E d' k') s) as [e|] eqn:He; [|now apply IH].
+  destruct (expired (ettl e) now || idle E d' e now) eqn:Hc; [|now apply IH].
+  assert (Hne : forall l0, holder E d k l0 = true -> holder E d' k' l0 = false).
+  { intros l0 H0. destruct (holder E d' k' l0) eqn:H1; [|reflexivity].
+    destruct (holder_key _ _ _ _ H0) as [<- <-]. destruct (holder_key _ _ _ _ H1) as [Hd Hk]. subst d' k'.
+    rewrite Hp in He. injection He as <-. rewrite Hx, Hi in Hc. discriminate. }
+  rewrite IH.
+  - rewrite lookup_remove_all, (Hne l Hl). reflexivity.
+  - rewrite lookup_remove_all, (Hne _ (holder_ploc E d k)). exact Hp.
+  - exact Hx.
+  - exact Hi.
+  - exact Hl.
+Qed.
+
+(* ... and removes every copy of a sampled key of this member whose primary copy is expired or idle *)
+Theorem evict_removes E m now d k p sample s :
+  Inv E s -> In (d, k) sample -> owner E d k = m ->
+  lookup (ploc E d k) s = Some p -> expired (ettl p) now || idle E d p now = true ->
+  lookup (ploc E d k) (evict_pass E m sample now s) = None.
+Proof.
+  unfold evict_pass. revert s. induction sample as [|[d' k'] sample IH]; cbn; intros s HI Hin Ho Hp Hc; [contradiction|].
+  assert (Gone : forall smp s0, lookup (ploc E d k) s0 = None ->
+    lookup (ploc E d k) (fold_left (fun acc dk => let '(d0, k0) := dk in
+       if Nat.eqb (owner E d0 k0) m then match lookup (ploc E d0 k0) acc with
+         | Some e => if expired (ettl e) now || idle E d0 e now then remove_all E d0 k0 acc else acc
+         | None => acc end else acc) smp s0) = None).
+  { induction smp as [|[d0 k0] smp IHs]; cbn; intros s0 H0; [exact H0|]. apply IHs.
+    destruct (Nat.eqb (owner E d0 k0) m); [|exact H0]. destruct (lookup (ploc E d0 k0) s0) as [e0|]; [|exact H0].
+    destruct (expired (ettl e0) now || idle E d0 e0 now); [|exact H0].
+    rewrite lookup_remove_all. destruct (holder E d0 k0 (ploc E d k)); [reflexivity|exact H0]. }
+  destruct Hin as [[= -> ->]|Hin].
+  - rewrite Ho, Nat.eqb_refl, Hp, Hc. apply Gone. now rewrite lookup_remove_all, holder_ploc.
+  - destruct (Nat.eqb (owner E d' k') m); [|now apply IH].
+    destruct (lookup (ploc E d' k') s) as [e|] eqn:He; [|now apply IH].
+    destruct (expired (ettl e) now || idle E d' e now) eqn:Hc'; [|now apply IH].
+    destruct (holder E d' k' (ploc E d k)) eqn:Hh.
+    + apply Gone. now rewrite lookup_remove_all, Hh.
+    + apply IH; [now apply Inv_remove_all|exact Hin|exact Ho| |exact Hc].
+      now rewrite lookup_remove_all, Hh.
+Qed.
